@@ -1,6 +1,8 @@
 import QR.Proofs.TypeInfo
 import QR.Proofs.Blank
 import QR.Proofs.Pinned
+import QR.Proofs.SourceTieA1
+import QR.Proofs.SourceTieA2
 /-
 C04 - format and version information are the correct BCH codewords in both copies, each bit at its ISO-assigned module.
 Model side: setup_type_info / setup_type_number (loops with the code's `i < 6 / i < 8 / i < 9` arithmetic) and the
@@ -67,6 +69,126 @@ theorem C04_read_back (S : Spec.Sym) (v level mask : Nat) (l : Spec.Level)
 /-- published examples (tests of the Spec): format word for M / mask 101, version words 7 and 40 -/
 example : Spec.formatWord 0b00101 = 0b100000011001110 := by decide
 example : Spec.versionWord 7 = 0x07C94 ∧ Spec.versionWord 40 = 0x28C69 := by decide
+
+
+/-! ### Source tie, part 2 (T2 plugins `tools/t2_fragments/`): the hand-written Model equals the definitions translated from
+    /repo's current Python AST (`QR.Gen.Code`, regenerated on every run). Restated verbatim from `QR/Proofs/SourceTie*.lean`. -/
+section SourceTieT2
+open QR.Model QR.Gen.Code QR.SourceTieA
+
+theorem C04_source_consts_src : const_G15 = Gen.G15 ∧ const_G18 = Gen.G18 ∧ const_G15_MASK = Gen.G15_MASK :=
+  QR.SourceTieA.consts_src
+
+/-- fuel-free form: the Python `while` statement of `BCH_digit`, started in `(data, 0)`, terminates in a state whose
+    `digit` is `Model.bchDigit data` -/
+theorem C04_source_bchDigit_src_while (data : Nat) :
+    ∃ s, While digitCond digitStep (bch_digit_init data) s ∧ bch_digit_result s.1 s.2 = bchDigit data :=
+  QR.SourceTieA.bchDigit_src_while data
+
+/-- **BCH_type_info**: `Model.bchTypeInfo data` is the translated result expression `((data << 10) | d) ^ G15_MASK`
+    applied to the final state of the translated loop
+    `d = data << 10; while BCH_digit(d) - BCH_digit(G15) >= 0: d ^= G15 << (BCH_digit(d) - BCH_digit(G15))`
+    (run with the Model's fuel), and that loop has exited. -/
+theorem C04_source_bchTypeInfo_src (data : Nat) :
+    let d0 := bch_type_info_init bchDigit data
+    let d := whileFuel (bch_type_info_cond bchDigit data) (bch_type_info_step bchDigit data) (bchDigit d0 + 1) d0
+    bchTypeInfo data = bch_type_info_result bchDigit data d ∧ bch_type_info_cond bchDigit data d = false :=
+  QR.SourceTieA.bchTypeInfo_src data
+
+/-- fuel-free forms: the Python `while` statements terminate, and the returned expression is the Model's value -/
+theorem C04_source_bchTypeInfo_src_while (data : Nat) :
+    ∃ d, While (bch_type_info_cond bchDigit data) (bch_type_info_step bchDigit data) (bch_type_info_init bchDigit data) d ∧
+      bch_type_info_result bchDigit data d = bchTypeInfo data :=
+  QR.SourceTieA.bchTypeInfo_src_while data
+
+/-- **BCH_type_number**: same for `d = data << 12`, `G18`, result `(data << 12) | d`. -/
+theorem C04_source_bchTypeNumber_src (data : Nat) :
+    let d0 := bch_type_number_init bchDigit data
+    let d := whileFuel (bch_type_number_cond bchDigit data) (bch_type_number_step bchDigit data) (bchDigit d0 + 1) d0
+    bchTypeNumber data = bch_type_number_result bchDigit data d ∧ bch_type_number_cond bchDigit data d = false :=
+  QR.SourceTieA.bchTypeNumber_src data
+
+theorem C04_source_bchTypeNumber_src_while (data : Nat) :
+    ∃ d, While (bch_type_number_cond bchDigit data) (bch_type_number_step bchDigit data)
+        (bch_type_number_init bchDigit data) d ∧
+      bch_type_number_result bchDigit data d = bchTypeNumber data :=
+  QR.SourceTieA.bchTypeNumber_src_while data
+
+/-- the data word `(self.error_correction << 3) | mask_pattern` -/
+theorem C04_source_type_info_data_src (level mask : Nat) : type_info_data level mask = (level <<< 3) ||| mask :=
+  QR.SourceTieA.type_info_data_src level mask
+
+theorem C04_source_type_info_calls : type_info_bits_call = "util.BCH_type_info(data)" ∧
+    type_number_bits_call = "util.BCH_type_number(self.version)" :=
+  QR.SourceTieA.type_info_calls
+
+theorem C04_source_type_info_ranges : type_info_v_range = (0, 15) ∧ type_info_h_range = (0, 15) ∧
+    type_number_a_range = (0, 18) ∧ type_number_b_range = (0, 18) :=
+  QR.SourceTieA.type_info_ranges
+
+/-- vertical strip: for every loop index the translated (row, col, value) is the Model's -/
+theorem C04_source_type_info_v_src (n : Nat) (hn : 15 ≤ n) (test : Bool) (bits i : Nat) :
+    type_info_v n test bits i =
+      (((((if i < 6 then i else if i < 8 then i + 1 else n - 15 + i : Nat) : Int)), 8), (!test && bits.testBit i)) :=
+  QR.SourceTieA.type_info_v_src n hn test bits i
+
+/-- horizontal strip -/
+theorem C04_source_type_info_h_src (n : Nat) (i : Nat) (hi : i < 15) (hn : i < 8 → i + 1 ≤ n) (test : Bool) (bits : Nat) :
+    type_info_h n test bits i =
+      ((8, (((if i < 8 then n - i - 1 else if i < 9 then 15 - i - 1 + 1 else 15 - i - 1 : Nat) : Int))),
+        (!test && bits.testBit i)) :=
+  QR.SourceTieA.type_info_h_src n i hi hn test bits
+
+theorem C04_source_type_info_fixed_src (n : Nat) (hn : 8 ≤ n) (test : Bool) :
+    type_info_fixed n test = ((((n - 8 : Nat) : Int), 8), !test) :=
+  QR.SourceTieA.type_info_fixed_src n hn test
+
+/-- all cells written by `setup_type_info` have non-negative coordinates inside the matrix (so Python's negative-index
+    wrap-around never applies and `Int.toNat` in `writeCell` is exact) -/
+theorem C04_source_type_info_cells_inside (n : Nat) (hn : 15 ≤ n) (test : Bool) (bits i : Nat) (hi : i < 15) :
+    let v := type_info_v n test bits i
+    let h := type_info_h n test bits i
+    let f := type_info_fixed n test
+    (0 ≤ v.1.1 ∧ v.1.1 < n ∧ 0 ≤ v.1.2 ∧ v.1.2 < n) ∧ (0 ≤ h.1.1 ∧ h.1.1 < n ∧ 0 ≤ h.1.2 ∧ h.1.2 < n) ∧
+      (0 ≤ f.1.1 ∧ f.1.1 < n ∧ 0 ≤ f.1.2 ∧ f.1.2 < n) :=
+  QR.SourceTieA.type_info_cells_inside n hn test bits i hi
+
+/-- **setup_type_info**: the Model function is the translated data word, the two translated write loops over the
+    translated ranges, then the translated fixed module (`self.modules[self.modules_count - 8][8] = not test`).
+    `15 ≤ n` is guaranteed by Python (`modules_count = 4 * version + 17 ≥ 21`). -/
+theorem C04_source_setupTypeInfo_src (n level : Nat) (hn : 15 ≤ n) (m : Mat) (test : Bool) (mask : Nat) :
+    setupTypeInfo n level m test mask =
+      let bits := bchTypeInfo (type_info_data level mask)
+      writeCell
+        (writeLoop type_info_h_range (type_info_h n test bits)
+          (writeLoop type_info_v_range (type_info_v n test bits) m))
+        (type_info_fixed n test) :=
+  QR.SourceTieA.setupTypeInfo_src n level hn m test mask
+
+theorem C04_source_type_number_a_src (n : Nat) (hn : 11 ≤ n) (test : Bool) (bits i : Nat) :
+    type_number_a n test bits i = ((((i / 3 : Nat) : Int), ((i % 3 + n - 8 - 3 : Nat) : Int)), (!test && bits.testBit i)) :=
+  QR.SourceTieA.type_number_a_src n hn test bits i
+
+theorem C04_source_type_number_b_src (n : Nat) (hn : 11 ≤ n) (test : Bool) (bits i : Nat) :
+    type_number_b n test bits i = ((((i % 3 + n - 8 - 3 : Nat) : Int), ((i / 3 : Nat) : Int)), (!test && bits.testBit i)) :=
+  QR.SourceTieA.type_number_b_src n hn test bits i
+
+theorem C04_source_type_number_cells_inside (n : Nat) (hn : 11 ≤ n) (test : Bool) (bits i : Nat) (hi : i < 18) :
+    let a := type_number_a n test bits i
+    let b := type_number_b n test bits i
+    (0 ≤ a.1.1 ∧ a.1.1 < n ∧ 0 ≤ a.1.2 ∧ a.1.2 < n) ∧ (0 ≤ b.1.1 ∧ b.1.1 < n ∧ 0 ≤ b.1.2 ∧ b.1.2 < n) :=
+  QR.SourceTieA.type_number_cells_inside n hn test bits i hi
+
+/-- **setup_type_number**: the Model function is the two translated write loops over the translated ranges, with
+    `bits = BCH_type_number(version)`.  `11 ≤ n` is guaranteed by Python (`modules_count ≥ 21`). -/
+theorem C04_source_setupTypeNumber_src (n version : Nat) (hn : 11 ≤ n) (m : Mat) (test : Bool) :
+    setupTypeNumber n version m test =
+      let bits := bchTypeNumber version
+      writeLoop type_number_b_range (type_number_b n test bits)
+        (writeLoop type_number_a_range (type_number_a n test bits) m) :=
+  QR.SourceTieA.setupTypeNumber_src n version hn m test
+
+end SourceTieT2
 
 /-- the Python functions this property's model mirrors have, in /repo's current working tree, exactly the normalised
     ASTs the model was written and validated against (fingerprints regenerated by T1 on every run) -/
